@@ -284,6 +284,33 @@ func (p *Program) findFunc(pkgPath, key string) *ssa.Function {
 	return fn
 }
 
+// isInterfaceMethod: key "(Iface).M" names a method of an interface type of the package.
+func (p *Program) isInterfaceMethod(pkgPath, key string) bool {
+	tp := p.typesPkg(pkgPath)
+	if tp == nil || !strings.HasPrefix(key, "(") {
+		return false
+	}
+	end := strings.Index(key, ")")
+	if end < 0 || end+2 > len(key) {
+		return false
+	}
+	tn, ok := tp.Scope().Lookup(strings.TrimPrefix(key[1:end], "*")).(*types.TypeName)
+	if !ok {
+		return false
+	}
+	it, ok := tn.Type().Underlying().(*types.Interface)
+	if !ok {
+		return false
+	}
+	meth := key[end+2:]
+	for i := 0; i < it.NumMethods(); i++ {
+		if it.Method(i).Name() == meth {
+			return true
+		}
+	}
+	return false
+}
+
 func (p *Program) pos(pos token.Pos) string {
 	if !pos.IsValid() || p.fset == nil {
 		return ""
